@@ -40,3 +40,69 @@ R.contract(
     raises={"Exception": "True"},
     modifies=["self.g_numbered"],
 ).defaults = {"lines_before": 2, "lines_after": 2}
+
+# ---------------------------------------------------------------- C20: frames under an ignored path are left out unless debug
+# Prefix contract of ExceptionTrace._render_trace: up to the end of its first loop (the filter), the collection handed to
+# the listing code holds exactly the frames that are not ignored -- none whose file name matches the ignore pattern unless
+# the verbosity is debug, and every other frame.  The listing itself (folding of repeated frames, snippets) is not
+# verified under this contract: it is bounded (C20.B.ignore, C20.B.debug_frame_snippets).
+from . import io_contracts as ioc  # noqa: E402,F401  (IO / Output shapes)
+
+RT = M_T + ":ExceptionTrace._render_trace"
+R.shape("TraceFrame", external=True, g_filename="str")
+R.shape("FrameCollection", external=True, g_items="seq[ref TraceFrame]")
+R.shape("ExceptionTrace", _ignore="str?")
+R.uf("re_match", ["str", "str"], "bool")
+R.contract("crashtest.frame:TraceFrame.filename", params={}, returns="str", ensures=["result == self.g_filename"],
+           modifies=[], assumed=True, note="the file name of a crashtest frame").is_property = True
+R.contract("crashtest.frame_collection:FrameCollection.__init__", params={}, ensures=["len(self.g_items) == 0"],
+           modifies=["self.g_items"], assumed=True, note="an empty frame collection (a list subclass of crashtest)")
+R.contract("crashtest.frame_collection:FrameCollection.append", params={"frame": "ref TraceFrame"},
+           ensures=["self.g_items == old(self.g_items) + seq([frame])"], modifies=["self.g_items"], assumed=True,
+           note="list.append")
+R.contract(ioc.M_IO + ":IO.is_debug", params={}, returns="bool", ensures=["result == (self._output._verbosity == 4)"],
+           modifies=[], assumed=True, note="verbosity DEBUG of the standard output (gate arithmetic: C10)")
+IGNORED = "(self._ignore is not None and len(self._ignore) > 0 and re_match(self._ignore, %s.g_filename) and io._output._verbosity != 4)"
+R.contract(
+    RT, variant="filter", cut_after_loop=0,
+    params={"io": "ref IO", "frames": "list[ref TraceFrame]"},
+    ensures=[
+        # nothing under the ignored path is listed (unless debug) ...
+        "all(not %s for x in values(stack_frames.g_items))" % (IGNORED % "x"),
+        # ... only frames of the trace are, and every frame that is not ignored
+        "all(x in frames for x in values(stack_frames.g_items))",
+        "all(implies(not %s, frames[j] in stack_frames.g_items) for j in range(len(frames)))" % (IGNORED % "frames[j]"),
+    ],
+    raises={"Exception": "True"},
+    modifies=[],
+    note="prefix contract (cut point after the filter loop)",
+)
+R.local_kinds = getattr(R, "local_kinds", {})
+R.loop(
+    RT, 0,
+    invariants=[
+        "fresh(stack_frames)",
+        "all(not %s for x in values(stack_frames.g_items))" % (IGNORED % "x"),
+        "all(x in frames for x in values(stack_frames.g_items))",
+        "all(implies(not %s, frames[j] in stack_frames.g_items) for j in range(_i))" % (IGNORED % "frames[j]"),
+    ],
+    modifies=["stack_frames.g_items"],
+    fingerprint="frame in frames",
+)
+
+
+def _trace_ext_hook(E, st, full, args, kwargs):
+    if full == "crashtest.frame_collection.FrameCollection":
+        from pyvc.calls import apply_contract
+        from pyvc.state import Out
+        s2, obj = E.new_object(st, "FrameCollection")
+        outs = apply_contract(E, s2, R.contracts["crashtest.frame_collection:FrameCollection.__init__"], obj, args, kwargs)
+        return [Out("ok", o.st, obj) if o.tag == "ok" else o for o in outs]
+    return None
+
+
+RENDER_TRACE_FILTER = {"qual": RT, "tag": "filter"}
+R.contract(ioc.M_IO + ":IO.is_very_verbose", params={}, returns="bool", ensures=["result == (self._output._verbosity >= 2)"],
+           modifies=[], assumed=True)
+R.contract(ioc.M_IO + ":IO.is_verbose", params={}, returns="bool", ensures=["result == (self._output._verbosity >= 1)"],
+           modifies=[], assumed=True)
